@@ -86,12 +86,18 @@ def message_record(msg, encodable: bool) -> dict:
             m2 = NMEA2000Message.from_json(text)
             b1 = payload_of_actisense(NMEA2000Encoder().encode_actisense(m2))
             rec["back"] = "same" if b0 == b1 else "differs"
+            # the parsed message object itself: same PGN, id and addressing (zero is an address and a priority)
+            if (m2.PGN, m2.id, m2.source, m2.destination, m2.priority) != (msg.PGN, msg.id, msg.source, msg.destination, msg.priority):
+                rec["hdrSame"] = False
+            elif NMEA2000Encoder().encode_actisense(m2).split()[:2] != NMEA2000Encoder().encode_actisense(msg).split()[:2]:
+                rec["back"] = "differs"
         except Exception as e:             # noqa: BLE001
             rec["back"], rec["err"] = "error", f"{type(e).__name__}: {e}"[:100]
     return rec
 
 
 CLAIM = "2020-01-01-00:00:00.000,6,60928,%d,255,8,e9,03,e0,e7,00,82,32,c0"
+ADDRS = [(8, 255, 3), (0, 255, 3), (8, 0, 3), (8, 35, 0), (0, 0, 0), (253, 254, 7), (8, 255, 6)]
 
 
 def lau(text: str) -> bytes:
@@ -183,7 +189,9 @@ def bind(chk: Check, tier: str, seed: int):
         for tag, payload in gens:
             use = decn if (n_ok % 3 == 2) else dec
             try:
-                m = use.decode_basic_string(corpus.basic_string(d["pgn"], payload, src=8, dst=255, prio=3), already_combined=True)
+                # addressing varies and visits its zero ends (source 0, destination 0, priority 0)
+                a_src, a_dst, a_prio = ADDRS[len(recs) % len(ADDRS)]
+                m = use.decode_basic_string(corpus.basic_string(d["pgn"], payload, src=a_src, dst=a_dst, prio=a_prio), already_combined=True)
             except Exception:              # noqa: BLE001
                 continue
             if m is None:
